@@ -219,6 +219,8 @@ def fold_shapes():
         ("fs_cond_expr", L("d0.Setting = 7 if 2 > 1 else 9\nkb = 4 if 0 else 6\nd1.Setting = kb + 1")),
         ("fs_bool_ops", L("d0.Setting = (3 > 2) and (2 > 5)\nd1.Setting = (1 == 1) or (2 < 1)\nd2.Setting = not (3 > 2)")),
         ("fs_hash_compare", L('d0.Setting = HASH("abc") == HASH("abc")\nd1.Setting = HASH("abc") != HASH("abd")')),
+        ("fs_hash_vs_number", L('if HASH("Furnace") == %d:\n    d0.Setting = 1\nelse:\n    d0.Setting = 2\nd1.Setting = (HASH("Furnace") != %d) + 2 * (%d == HASH("Furnace"))' % ((pysrc.crc("Furnace"),) * 3))),
+        ("fs_str_arith", L('d2.Setting = STR("Hi") + 1\nd3.Setting = (STR("Hi") == 18537) + (STR("A") * 2)')),
         ("fs_mixed", L("ka = 8\nva = d0.Setting\nd1.Setting = va + ka * 2 - 16 / ka\nd2.Setting = (ka > 3) + va")),
         ("fs_math_exact", L("d0.Setting = sqrt(9) + cos(0) + sin(0) + exp(0) + log(1)\nd1.Setting = sqrt(2.25)")),
         ("fs_nested_calls", H + "def fa(xa):\n    return xa + 1\ndef fb(xa):\n    return fa(xa) * fa(2)\nwhile True:\n    d0.Setting = fb(3)\n    d1.Setting = fb(d0.Setting)\n    yield_()\n"),
